@@ -15,7 +15,7 @@ tvars == <<vars, l>>
 
 IsEvent(e) == l <= Len(Trace) /\ Trace[l].ev = e /\ l' = l + 1
 
-Empty == [tree |-> Nil, ctree |-> Nil, ovl |-> <<>>, fork |-> <<>>]
+Empty == [tree |-> Nil, ctree |-> Nil, ovl |-> <<>>, fork |-> <<>>, cold |-> FALSE]
 
 TraceInit == l = 1 /\ st = Empty /\ hist = <<>>
 
